@@ -8,9 +8,12 @@ from mcx.common import Report, pmap, seed
 LEVEL = "model_checking"
 
 
-def plan(tier):
+def plan(tier, pid="C01"):
     if tier == "quick":
-        combos = [("spot1+fut", 0, 4), ("spot4+fut", 1, 3), ("fut+fut", 4, 3), ("etf+es", 5, 3), ("spot+spot", 1, 3), ("halfmult", 3, 4),
+        # one unit is explored a level deeper (split by first operation); C01 and C05 take different ones
+        deep = "spot1+fut" if pid == "C01" else "fut+fut"
+        combos = [("spot1+fut", 0, 4 if deep == "spot1+fut" else 3), ("spot4+fut", 1, 3), ("fut+fut", 4, 4 if deep == "fut+fut" else 3),
+                  ("etf+es", 5, 3), ("spot+spot", 1, 3), ("halfmult", 3, 3),
                   ("spot1+fut", 4, 3), ("fut+fut", 0, 3), ("etf+es", 1, 3), ("halfmult", 2, 3), ("spot4+fut", 5, 3), ("spot+spot", 3, 3)]
         return [(u, ledger.FEES[f], d, 0.0) for u, f, d in combos] + [("spot1+fut", ledger.FEES[1], 3, 0.05), ("fut+fut", ledger.FEES[0], 3, 0.05), ("three", ledger.FEES[1], 3, 0.0)]
     out = []
@@ -40,7 +43,7 @@ def run(tier, pid):
     scale, deposit = ledger.palette()
     ops = ledger.alphabet()
     units = []
-    for (u, f, d, rt) in plan(tier):
+    for (u, f, d, rt) in plan(tier, pid):
         if d >= (4 if tier == "quick" else 5):
             # deep units are split by first operation (each part deduplicates on its own) to use all cores
             for op in ledger.alphabet(ncontracts=len(ledger.UNIVERSES[u])):
